@@ -578,6 +578,9 @@ def channel_model(tier, fixes):
 # channel conformance (TraceChan.tla) of the runs validated so far in this process: runs whose hook events
 # were folded through the channel model, events folded, and every failed enabling condition
 CHAN = dict(runs=0, events=0, drift=[])
+# collector conformance (TraceColl.tla): runs, processed batches and reported records folded through Collector.tla's
+# Process, and every comparison (retained state after the batch, records of the report) that failed
+COLL = dict(runs=0, cycles=0, records=0, drift=[])
 
 
 def validate(trace, tag, parts=8):
@@ -622,6 +625,20 @@ def validate(trace, tag, parts=8):
                     CHAN["drift"].append(dict(dv, tag=tag))
                 if dv.get("p"):
                     viols.append(dict(dv, w="channel: " + dv["w"]))
+                continue
+            mm = re.match(r'^<<"CDRIFT", "(.*)">>$', line)
+            if mm:
+                dv = json.loads(unescape(mm.group(1)))
+                if len(COLL["drift"]) < 200:
+                    COLL["drift"].append(dict(dv, tag=tag))
+                if dv.get("p"):
+                    viols.append(dict(dv, w="collector: " + dv["w"]))
+                continue
+            mm = re.match(r'^<<"COLL", (\d+), (\d+), (\d+)>>$', line)
+            if mm:
+                COLL["runs"] += 1
+                COLL["cycles"] += int(mm.group(2))
+                COLL["records"] += int(mm.group(3))
                 continue
             mm = re.match(r'^<<"CHAN", (\d+), (\d+)>>$', line)
             if mm:
